@@ -1,4 +1,5 @@
 import RulioProofs.CronHooks
+import RulioModel.CronHooksLoc
 
 /-! # C15 — scheduled rules run when due, per location, and never after removal (property theorems only)
 
@@ -144,6 +145,45 @@ theorem persistent_load_keeps_registry (a : ASys) (loc : String) (docs : List (S
     (hp : a.cfg.persistent = true) : (evLoad a loc docs).reg = a.reg := by
   rw [evLoad_fold a loc docs]
   exact loadIdx_fold_reg_persistent loc docs { a with items := itemsNotOf a.items loc } hp
+
+/-! ## the hooked `State.Add` of the Location-level model (`RulioModel/CronHooksLoc.lean`, the model the driver runs against the
+real code): what the add hook does to location and registry -/
+
+/-- **a refused add changes nothing.** When the state accepts the fact but the add hook refuses it (a `rule` that is no
+map, a `schedule` that is no string), the add reports the hook's error and memory, storage, registry and the calls made
+to the cron are what they were (only the id generator may have moved). -/
+theorem refused_add_leaves_location_and_registry (cfg : CronCfg) (loading : Bool)
+    (addFn : St → String → Obj → Int → St × Except LErr String) (given : String) (x : Obj) (now : Int) (h : HS)
+    (s' : St) (id : String) (e : LErr)
+    (hadd : addFn h.loc.st given x now = (s', .ok id))
+    (hnot : (cfg.persistent && loading) = false)
+    (hhook : getScheduleObj ((amGet s'.facts id).getD []) = .error e) :
+    (addCore cfg loading addFn given x now h).2.1 = .error e ∧
+    (addCore cfg loading addFn given x now h).1.loc.st.facts = h.loc.st.facts ∧
+    (addCore cfg loading addFn given x now h).1.loc.st.store = h.loc.st.store ∧
+    (addCore cfg loading addFn given x now h).1.reg = h.reg ∧
+    (addCore cfg loading addFn given x now h).1.calls = h.calls := by
+  simp [addCore, hadd, hnot, hhook]
+
+/-- **an accepted scheduled rule is registered.** When the state accepts the fact and it is a rule with a non-empty
+schedule, the add succeeds, the registry holds the job under the rule's key in this location, and exactly one
+`ScheduleEvent` call was made (unless the cron is persistent and the location is loading). -/
+theorem accepted_add_registers_schedule (cfg : CronCfg) (loading : Bool)
+    (addFn : St → String → Obj → Int → St × Except LErr String) (given : String) (x : Obj) (now : Int) (h : HS)
+    (s' : St) (id s : String)
+    (hadd : addFn h.loc.st given x now = (s', .ok id))
+    (hnot : (cfg.persistent && loading) = false)
+    (hhook : getScheduleObj ((amGet s'.facts id).getD []) = .ok s) (hs : s ≠ "") :
+    (addCore cfg loading addFn given x now h).2.1 = .ok id ∧
+    aGet (addCore cfg loading addFn given x now h).1.reg (keyOf cfg h.loc.name id) = some ⟨s, h.loc.name⟩ ∧
+    (addCore cfg loading addFn given x now h).1.calls = h.calls ++ [["schedule", h.loc.name, id, s]] := by
+  simp [addCore, hadd, hnot, hhook, hs, aGet_aSet]
+
+/-- the hook hypotheses are met by concrete facts: a schedule that is a number is refused, a string is accepted -/
+example : getScheduleObj [("rule", .obj [("schedule", .num 5)])] = .error "hookSchedNotString" ∧
+    getScheduleObj [("rule", .obj [("schedule", .str "+1h")])] = .ok "+1h" ∧
+    getScheduleObj [("rule", .str "x")] = .error "hookRuleNotMap" ∧ getScheduleObj [("k", .num 1)] = .ok "" := by
+  refine ⟨?_, ?_, ?_, ?_⟩ <;> rfl
 
 /-! ## negative theorems: where the code breaks "registered exactly while it exists" (each witness is replayed on
 the real code by `checks/c15.py`) -/
